@@ -9,6 +9,9 @@
 #include "util/Queue.h"
 #include "util/String.h"
 #include "util/Hashtable.h"
+#include "iogateway/PacketTunnelIOGateway.h"      // C12
+#include "iogateway/MiniPacketTunnelIOGateway.h"  // C12
+#include "util/PulseNode.h"   // C20
 
 using namespace muscle;
 
@@ -31,9 +34,24 @@ int main()
    PN("MUSCLE_MESSAGE_ENCODING_END_MARKER", MUSCLE_MESSAGE_ENCODING_END_MARKER);
    PN("MUSCLE_NO_LIMIT", MUSCLE_NO_LIMIT);
 
+   // ---- C01/C08: in-memory sizes of the item types (the size tables inside message/Message.cpp are
+   //      written as sizeof() expressions; gen_consts.py captures those expressions as text and the Coq
+   //      side evaluates them over these values) and the flattened sizes the header-only classes advertise
+   PN("SIZEOF_bool", sizeof(bool));     PN("SIZEOF_double", sizeof(double)); PN("SIZEOF_float", sizeof(float));
+   PN("SIZEOF_int64", sizeof(int64));   PN("SIZEOF_int32", sizeof(int32));   PN("SIZEOF_int16", sizeof(int16));
+   PN("SIZEOF_int8", sizeof(int8));     PN("SIZEOF_voidp", sizeof(void *));  PN("SIZEOF_Point", sizeof(Point));
+   PN("SIZEOF_Rect", sizeof(Rect));     PN("SIZEOF_MessageRef", sizeof(MessageRef)); PN("SIZEOF_String", sizeof(String));
+   PN("SIZEOF_uint32", sizeof(uint32)); PN("SIZEOF_uint8", sizeof(uint8));
+   PN("POINT_FLATTENED_SIZE", Point::FlattenedSize()); PN("RECT_FLATTENED_SIZE", Rect::FlattenedSize());
+
    // ---- containers (C16, C17, C09)
    PN("SMALL_QUEUE_SIZE", SMALL_QUEUE_SIZE);
    PN("MUSCLE_HASHTABLE_DEFAULT_CAPACITY", MUSCLE_HASHTABLE_DEFAULT_CAPACITY);
+
+   // ---- C17: String small-buffer layout (evaluated by the compiler from util/String.h)
+   PN("STRING_SIZEOF", sizeof(String));
+   PN("STRING_MAX_SHORT_LENGTH", String::GetMaxShortStringLength());
+   PN("STRING_MAX_LENGTH", String::GetMaxStringLength());
 
    // ---- reflector protocol (C04..C07, C13)
    PN("BEGIN_PR_COMMANDS", BEGIN_PR_COMMANDS); PN("END_PR_COMMANDS", END_PR_COMMANDS);
@@ -48,5 +66,13 @@ int main()
    PN("INDEX_OP_CLEARED", INDEX_OP_CLEARED);
    PS("PR_NAME_KEYS", PR_NAME_KEYS); PS("PR_NAME_FILTERS", PR_NAME_FILTERS);
    PS("PR_NAME_REMOVED_DATAITEMS", PR_NAME_REMOVED_DATAITEMS);
+   // ---- pulse scheduler (C20)
+   PN("MUSCLE_TIME_NEVER", MUSCLE_TIME_NEVER);
+
+   // ---- packet tunnels (C12)
+   PN("DEFAULT_TUNNEL_IOGATEWAY_MAGIC", DEFAULT_TUNNEL_IOGATEWAY_MAGIC);
+   PN("DEFAULT_MINI_TUNNEL_IOGATEWAY_MAGIC", DEFAULT_MINI_TUNNEL_IOGATEWAY_MAGIC);
+   PN("C12_SIZEOF_UINT32", sizeof(uint32));
+
    return 0;
 }
